@@ -41,6 +41,8 @@ def make_data(cc, rng, n):
     import numpy as np
     nf = rng.choice([3, 4, 6])
     structure = [(0, list(range(100, 100 + rng.choice([2, 3, 5])))), (1, list(range(200, 200 + rng.choice([2, 4, 7]))))]
+    if rng.random() < 0.3:
+        structure[1] = (1, [1500000321, 2000000011, 1999999999][:rng.choice([2, 3])])       # hashed-id sized codes (sums exceed int32)
     X = cc.generate_data(nf, n, cardinality=rng.choice([3, 5, 8]), structure=structure, ensure_rep=True, seed=rng.randrange(1000))
     return X
 
@@ -64,8 +66,18 @@ def shard_methods(sh, part):
         # ---- correlated -------------------------------------------------------------------------
         r = rng.choice([0.99, -0.99, 0.5, -0.5, 0.1, -0.1, 0.0, round(rng.uniform(-0.95, 0.95), 3)])
         idx = rng.choice([0, 1, [0], [0, 1], [1, nf - 1], list(range(nf))]) if n <= 600 else rng.choice([0, [1]])
-        ok, Xc = sh.call('correlation=r', 'generate_correlated', cc.generate_correlated, X, np.array(idx) if isinstance(idx, list) and rng.random() < 0.3 else idx, r)
-        if ok:
+        unit = rng.choice([1, 1, 1e-6, 1e-9]) if n <= 600 else 1
+        Xin = X if unit == 1 else X0.astype(float) * unit         # the same data expressed in very small units
+        ok, Xc = sh.call('correlation=r', 'generate_correlated', cc.generate_correlated, Xin, np.array(idx) if isinstance(idx, list) and rng.random() < 0.3 else idx, r)
+        if ok and unit != 1:
+            ids = idx if isinstance(idx, list) else [idx]
+            for src, pos in zip(ids, range(nf, nf + len(ids))):
+                s_ = Xin[:, src].tolist()
+                if len(set(s_)) > 1:
+                    got = pearson(s_, Xc[:, pos].tolist())
+                    sh.check('correlation=r', abs(got - r) <= 1e-6, 'pearson(source,correlated)!=r', lambda: {'r': r, 'got': got, 'unit': unit, 'n': n, 'source_head': s_[:8]})
+            sh.case(('correlated-small-units', n, repr(idx), r, unit), True, 'correlated/unit=%g' % unit)
+        elif ok:
             ids = idx if isinstance(idx, list) else [idx]
             added = list(range(nf, nf + len(ids)))
             good_shape = Xc.shape == (n, nf + len(ids)) and bool((Xc[:, :nf] == X0).all())
